@@ -1,6 +1,140 @@
-import Got.Model.TaskQ
-/- property theorems of C09 (only theorems + non-vacuity examples live here) -/
+import Got.Lemmas.TaskQ
+/-
+C09 — taskx.Queue hands tasks over in send order and Get returns the handler's result; close unblocks senders.
+
+All theorems are about Got.Model.TaskQ (every finite list of actions = every number of producers, sends,
+interleaving, consumer speed and position of close).  Trusted: Go channel FIFO / select / WaitGroup
+semantics as encoded in the model's `step`.
+-/
 open Got.Model.TaskQ
 
-/-- taskEmpty.Get2 never blocks and returns (nil, nil), in every state. -/
-theorem C09_empty_task_complete (s : State) : get2 s .empty = some nilPair := rfl
+/-- Order and exactly-once.  In every reachable state
+    * what the consumer received followed by what is still in `C` is exactly the sequence of successful channel
+      sends (nothing reordered, duplicated or lost between `C <- task` and `<-C`),
+    * within it the messages of one producer carry strictly increasing send numbers (send order is kept per
+      producer), hence no message occurs twice,
+    * and every such message was begun by a Send* call (nothing is invented). -/
+theorem C09_order_once (cap : Nat) (acts : List Act) :
+    let s := run cap acts
+    s.received ++ s.chan = s.puts ∧
+    (s.received ++ s.chan).Pairwise (fun a b => a.prod = b.prod → a.seq < b.seq) ∧
+    (s.received ++ s.chan).Nodup ∧
+    (∀ m ∈ s.received ++ s.chan, m ∈ s.begun ∧ m.seq < s.nextSeq m.prod) := by
+  intro s
+  have h := inv_run cap acts
+  have h2 := inv2_run cap acts
+  refine ⟨h.fifo, ?_, ?_, ?_⟩
+  · rw [h.fifo]; exact h.putsOrd
+  · rw [h.fifo]; exact prodOrdered_nodup h.putsOrd
+  · intro m hm
+    rw [h.fifo] at hm
+    exact ⟨h2.putsBegun m hm, h.putsLt m hm⟩
+
+/-- the received sequence alone: per-producer order, no task twice -/
+theorem C09_received_order_once (cap : Nat) (acts : List Act) :
+    (run cap acts).received.Pairwise (fun a b => a.prod = b.prod → a.seq < b.seq) ∧ (run cap acts).received.Nodup := by
+  have h := C09_order_once cap acts
+  exact ⟨(List.pairwise_append.mp h.2.1).1, (List.nodup_append.mp h.2.2.1).1⟩
+
+/-- No drop while open: as long as closeChan is not closed, every message whose Send* call has returned
+    (no producer is still parked at the select with it) is in `received ++ C`. -/
+theorem C09_no_drop_open (cap : Nat) (acts : List Act) :
+    let s := run cap acts
+    s.closed = false → ∀ m ∈ s.begun, (∀ p, s.ppc p ≠ .sel m) → m ∈ s.received ++ s.chan := by
+  intro s hopen m hm hret
+  have h := inv_run cap acts
+  rw [h.fifo]
+  rcases h.begunOk m hm with h1 | h1 | h1
+  · exact h1
+  · rw [h.openNoAbort hopen] at h1; cases h1
+  · exact absurd h1 (hret m.prod)
+
+/-- the buffer never exceeds its capacity, and on an open full queue the sender stays parked (it neither
+    drops the task nor returns): both select branches are disabled -/
+theorem C09_full_blocks_open (cap : Nat) (acts : List Act) (p : Nat) :
+    let s := run cap acts
+    s.chan.length ≤ s.cap ∧
+    (s.closed = false → s.chan.length = s.cap → step s (.put p) = none ∧ step s (.abort p) = none) := by
+  intro s
+  refine ⟨(inv_run cap acts).capOk, ?_⟩
+  intro hopen hfull
+  constructor
+  · simp only [step]; split <;> simp [hfull]
+  · simp only [step]; split <;> simp [hopen]
+
+/-- Get2 of a callback task is disabled (`none`) until the consumer has executed the task; when it returns `r`,
+    `r` is a pair that the task's handler returned to the consumer; if the consumer executed the task once
+    (the property's assumption), `r` is exactly that handler result. -/
+theorem C09_get_is_handler_result (cap : Nat) (acts : List Act) (id : Nat) :
+    let s := run cap acts
+    ((∀ r, (id, r) ∉ s.execLog) → get2 s (.cb id) = none) ∧
+    (∀ r, get2 s (.cb id) = some r → (id, r) ∈ s.execLog) ∧
+    (∀ r r0, get2 s (.cb id) = some r → s.execLog.filter (fun e => e.1 = id) = [(id, r0)] → r = r0) := by
+  intro s
+  have h := inv_run cap acts
+  have key : ∀ r, get2 s (.cb id) = some r → (id, r) ∈ s.execLog := by
+    intro r hr
+    simp only [get2] at hr
+    split at hr
+    · rename_i hd
+      injection hr with hr; subst hr
+      exact (h.doneOk id hd).2
+    · cases hr
+  refine ⟨?_, key, ?_⟩
+  · intro hno
+    cases hg : get2 s (.cb id) with
+    | none => rfl
+    | some r => exact absurd (key r hg) (hno r)
+  · intro r r0 hr hf
+    have hm : (id, r) ∈ s.execLog.filter (fun e => e.1 = id) := by
+      rw [List.mem_filter]; exact ⟨key r hr, by simp⟩
+    rw [hf] at hm
+    simp at hm
+    exact hm
+
+/-- once released, Get2 keeps returning: `done` is never reset for an allocated task, and the value only changes
+    through a further execution by the consumer (`redo`), which the property excludes -/
+theorem C09_get_stable_without_redo (s s' : State) (a : Act) (id : Nat) (r : Pair)
+    (hs : step s a = some s') (hid : id < s.nextTask) (hg : get2 s (.cb id) = some r)
+    (hnostore : a ≠ .store) : get2 s' (.cb id) = some r := by
+  have hne : id ≠ s.nextTask := by omega
+  have hd : s.done id = true ∧ s.result id = r := by
+    simp only [get2] at hg
+    split at hg
+    · rename_i hd; injection hg with hg; exact ⟨hd, hg⟩
+    · cases hg
+  cases a <;> simp only [step, beginSend] at hs <;> (repeat' split at hs) <;>
+    first
+    | contradiction
+    | (injection hs with hs; subst hs
+       simp only [get2, upd, hne, if_false, hd.1, hd.2, if_true]
+       try (split <;> simp_all))
+
+/-- nil handler: SendCallback(nil) returns at once (whatever the buffer and closeChan are), sends nothing, and
+    the task it returns is an already-completed empty task: Get2 = (nil, nil) -/
+theorem C09_nil_handler (s : State) (p : Nat) (hp : s.ppc p = .idle) :
+    ∃ s', step s (.sendCallback p false) = some s' ∧ s'.ppc p = .idle ∧ s'.chan = s.chan ∧ s'.puts = s.puts ∧
+      s'.returned p = .empty :: s.returned p ∧ ∀ s'' : State, get2 s'' .empty = some nilPair := by
+  refine ⟨{ s with nextSeq := upd s.nextSeq p (s.nextSeq p + 1), returned := upd s.returned p (.empty :: s.returned p) },
+    by simp [step, hp], hp, rfl, rfl, by simp, fun _ => rfl⟩
+
+/-- close unblocks senders: once closeChan is closed it stays closed, and a producer parked at the select can
+    always take the `<-closeChan` branch and return — whatever `len(C)` is. -/
+theorem C09_close_unblocks (s : State) (p : Nat) (m : Msg) (hc : s.closed = true) (hp : s.ppc p = .sel m) :
+    (∃ s', step s (.abort p) = some s' ∧ s'.ppc p = .idle ∧ s'.returned p = m.task :: s.returned p) ∧
+    (∀ acts : List Act, (acts.foldl stepD s).closed = true) := by
+  refine ⟨⟨{ s with aborted := s.aborted ++ [m], ppc := upd s.ppc p .idle, returned := upd s.returned p (m.task :: s.returned p) },
+    by simp [step, hp, hc], by simp, by simp⟩, fun acts => closed_foldl acts hc⟩
+
+/-! non-vacuity: concrete runs -/
+
+-- two producers, capacity 1: the second send parks at the select, is released by the consumer's receive
+example : (run 1 [.sendCallback 0 true, .put 0, .sendCallback 1 true, .put 1, .recv, .put 1]).chan.length = 1 := by decide
+example : (run 1 [.sendCallback 0 true, .put 0, .sendCallback 1 true, .put 1, .recv, .put 1]).received.length = 1 := by decide
+example : (run 1 [.sendCallback 0 true, .put 0, .sendCallback 1 true, .put 1, .recv, .put 1]).fullLogs = 1 := by decide
+-- Get2 blocked before the execution, released with the handler's pair after it
+example : get2 (run 2 [.sendCallback 0 true, .put 0, .recv, .call (some 7, none)]) (.cb 0) = none := by decide
+example : get2 (run 2 [.sendCallback 0 true, .put 0, .recv, .call (some 7, none), .store, .finish]) (.cb 0) = some (some 7, none) := by decide
+-- a parked sender on a full queue leaves through close
+example : (run 1 [.sendCallback 0 true, .put 0, .sendCallback 1 true, .close, .abort 1]).aborted.length = 1 := by decide
+example : (run 1 [.sendCallback 0 true, .put 0, .sendCallback 1 true, .close]).closed = true := by decide
